@@ -124,3 +124,68 @@ TABLES = {
             "MultiTapering/adapt": _cls(S.MultiTapering, NW=2.5, k=4, NFFT=64, method="adapt", scale_by_freq=False),
             "MultiTapering/unity": _cls(S.MultiTapering, NW=2.5, k=4, NFFT=64, method="unity", scale_by_freq=False)},
 }
+
+
+# ---- memory-layout invariance ------------------------------------------------------
+LAYOUTS = ["strided", "realpart", "column", "negstride", "fortran_row"]
+
+
+@st.composite
+def layout_case(draw, names, min_n=24, max_n=64):
+    return {"fn": draw(st.sampled_from(list(names))), "layout": draw(st.sampled_from(LAYOUTS)), "n": draw(st.integers(min_n, max_n)),
+            "seed": draw(st.integers(0, 2 ** 32 - 1)), "complex": draw(st.booleans())}
+
+
+def layout_pair(case):
+    """(a non-contiguous view, a contiguous copy) holding the same values"""
+    rng = np.random.default_rng(case["seed"])
+    n = case["n"]
+    v = rng.standard_normal(n) + 0.8 * np.cos(0.9 * np.arange(n))
+    if case["complex"]:
+        v = v + 1j * rng.standard_normal(n)
+    lay = case["layout"]
+    if lay == "strided":
+        base = np.empty(2 * n, dtype=v.dtype)
+        base[::2] = v
+        base[1::2] = 7.5
+        view = base[::2]
+    elif lay == "realpart" and not case["complex"]:
+        base = v + 1j * rng.standard_normal(n)
+        view = base.real
+    elif lay == "column":
+        base = np.empty((n, 3), dtype=v.dtype)
+        base[:, 1] = v
+        base[:, 0] = -3.0
+        base[:, 2] = 11.0
+        view = base[:, 1]
+    elif lay == "negstride":
+        base = v[::-1].copy()
+        view = base[::-1]
+    else:
+        base = np.asfortranarray(np.vstack([v, 2 * v + 1]))
+        view = base[0]
+    return view, np.ascontiguousarray(v)
+
+
+def layout_body(ctx, case, table, tol=1e-10):
+    name = case["fn"]
+    f = table[name]
+    view, flatcopy = layout_pair(case)
+    sig = {"fn": name, "layout": case["layout"]}
+    ctx.sig_on_exception = sig
+    ctx.cls(name, case["layout"], "complex" if case["complex"] else "real")
+    ctx.nontrivial(not view.flags["C_CONTIGUOUS"])
+    keep = view.copy()
+    want = flat(f(flatcopy))
+    got = flat(f(view))
+    ctx.check(np.array_equal(view, keep), "%s modified its input array" % name, sig=sig)
+    ctx.check(len(got) == len(want), "%s: number of outputs depends on the memory layout of the input" % name, sig=sig)
+    for j, (g, w) in enumerate(zip(got, want)):
+        ctx.check(g.shape == w.shape, "%s output %d: shape depends on the memory layout of the input" % (name, j), sig=sig)
+        if w.size == 0 or not np.all(np.isfinite(w)):
+            continue
+        scale = float(np.max(np.abs(w)))
+        err = float(np.max(np.abs(g - w))) if np.all(np.isfinite(g)) else float("inf")
+        ctx.check(err <= tol * scale + 1e-300,
+                  "%s output %d depends on the memory layout of the input (%s view vs contiguous copy of the same values): max|d| = %.3g, scale %.3g"
+                  % (name, j, case["layout"], err, scale), sig=sig)
